@@ -3,7 +3,6 @@ End-to-end theorems for v3 entry points: compositions of the layer theorems.
 -/
 import Sqroot.Model.EndToEnd
 import Sqroot.Proofs.View
-import Sqroot.Proofs.Format
 import Sqroot.Proofs.Search
 import Sqroot.Proofs.MemoDemand
 namespace Sqroot.Proofs
@@ -184,155 +183,8 @@ theorem winOf_withSig_lo (limits : List Int) :
     simp only [List.map_cons, List.foldl_cons, toSpecOp]
     rw [ih]; rfl
 
-theorem renderFixed_take (s e : Int) (ex : Bool) (D : List Nat) (k : Nat) (hk : s.toNat ≤ k) :
-    Spec.renderFixed s e ex (D.take k) = Spec.renderFixed s e ex D := by
-  unfold Spec.renderFixed
-  rw [List.take_take, Nat.min_eq_left hk]
-
-theorem renderNumber_take (s : Int) (ex sci cap : Bool) (e : Int) (D : List Nat) (k : Nat) (hk : s.toNat ≤ k) :
-    Spec.renderNumber s ex sci cap e (D.take k) = Spec.renderNumber s ex sci cap e D := by
-  unfold Spec.renderNumber
-  rw [renderFixed_take _ _ _ _ _ hk, renderFixed_take _ _ _ _ _ hk]
-
-theorem formatRule_g (e : Int) : Spec.formatRule 'g'.toNat none e
-    = some (16, false, decide ((16:Int) < e ∨ e < -3 ∨ e > 6), false) := by
-  simp [Spec.formatRule, Fmt.toNat_lits]
-
-theorem renderString_take (e : Int) (D : List Nat) (k : Nat) (hk : 16 ≤ k) :
-    Spec.renderString e (D.take k) = Spec.renderString e D := by
-  unfold Spec.renderString
-  rw [formatRule_g]
-  exact renderNumber_take _ _ _ _ _ _ _ (by simpa using hk)
-
-/-- the number of digits the formatter needs -/
-def needOf (verb : Nat) (prec : Option Nat) (e : Int) : Nat :=
-  match Spec.formatRule verb prec e with
-  | some (s, _, _, _) => s.toNat
-  | none => 16
-
-theorem render_take (verb : Nat) (prec width : Option Nat) (minus : Bool) (e : Int) (D : List Nat) (k : Nat)
-    (hk : needOf verb prec e ≤ k) :
-    Spec.render verb prec width minus e (D.take k) = Spec.render verb prec width minus e D := by
-  unfold needOf at hk
-  unfold Spec.render
-  cases hr : Spec.formatRule verb prec e with
-  | none => rw [hr] at hk; simp only at hk ⊢; rw [renderString_take _ _ _ hk]
-  | some q =>
-    obtain ⟨s, ex, sci, cap⟩ := q
-    rw [hr] at hk; simp only at hk ⊢
-    rw [renderNumber_take _ _ _ _ _ _ _ hk]
-
-theorem need_eq (verb : Nat) (prec : Option Nat) (e : Int) :
-    (if (genNewFormatSpec .v3 (prec.getD 0) prec.isSome verb e).2
-      then (genNewFormatSpec .v3 (prec.getD 0) prec.isSome verb e).1.sigDigits.toNat
-      else (stringSpec .v3 e).sigDigits.toNat) = needOf verb prec e := by
-  have hrule := newFormatSpec_rule .v3 verb prec e
-  unfold needOf
-  cases hr : Spec.formatRule verb prec e with
-  | none =>
-    rw [hr] at hrule
-    simp only at hrule ⊢
-    rw [hrule]
-    simp [stringSpec, Gen.V3.formatSpecForG, Gen.V3.gPrecision]
-  | some q =>
-    obtain ⟨s, ex, sci, cap⟩ := q
-    rw [hr] at hrule
-    simp only at hrule ⊢
-    rw [hrule.1, hrule.2.1]; rfl
-
-theorem needOf_le (verb : Nat) (prec : Option Nat) (e : Int) (h : prec.getD 16 + e.natAbs < 10000) :
-    needOf verb prec e ≤ 20000 := by
-  unfold needOf
-  have h6 : prec.getD 6 ≤ prec.getD 16 := by cases prec <;> simp
-  cases hr : Spec.formatRule verb prec e with
-  | none => simp
-  | some q =>
-    obtain ⟨s, ex, sci, cap⟩ := q
-    simp only
-    unfold Spec.formatRule at hr
-    simp only at hr
-    split at hr
-    · simp only [Option.some.injEq, Prod.mk.injEq] at hr; omega
-    split at hr
-    · simp only [Option.some.injEq, Prod.mk.injEq] at hr; omega
-    split at hr
-    · simp only [Option.some.injEq, Prod.mk.injEq] at hr; omega
-    split at hr
-    · simp only [Option.some.injEq, Prod.mk.injEq] at hr
-      obtain ⟨hs, _⟩ := hr
-      split at hs <;> omega
-    split at hr
-    · simp only [Option.some.injEq, Prod.mk.injEq] at hr
-      obtain ⟨hs, _⟩ := hr
-      split at hs <;> omega
-    · cases hr
-
 end E2E
 open E2E ViewL
-
-/-- digits of the Number a chain of WithSignificant calls leads to (window `[0, hi)`) -/
-def numberDigits (src : Src) (w : Spec.Win) (n : Nat) : List Nat :=
-  (Spec.windowList src.len src.digit { w with lo := 0 } n).map (·.2)
-
-/-- C08 end to end: formatting a Number reached by any chain of WithSignificant calls (the only
-view operation that yields Numbers) renders the first digits of its window -/
-theorem format_end_to_end (c : MemoCfg) (m : Memo) (b v : Val3) (limits : List Int) (e : Int)
-    (hb : b = .opqN .memo e ∨ b = .fnum .memo e)
-    (hv : applyChain3 b (limits.map .withSig) = some v) (hnz : v.isZero = false)
-    (hd : ∀ p, m.src.digit p ≤ 9)
-    (hfit : Fits c m.src (Spec.winOf ((limits.map ViewOp.withSig).map toSpecOp)) 20000)
-    (verb : Nat) (prec width : Option Nat) (minus : Bool) (hprec : prec.getD 16 + e.natAbs < 10000) :
-    ∃ m' txt, format3 c m v verb prec width minus = some (.ok (m', txt)) ∧ m'.src = m.src ∧
-      txt = Spec.render verb prec width minus e
-              (numberDigits m.src (Spec.winOf ((limits.map ViewOp.withSig).map toSpecOp)) 20000) := by
-  have hbase : IsBase3 b := ⟨e, hb.symm⟩
-  have hinv0 : NumInv e b := by
-    rcases hb with h | h <;> subst h
-    · exact ⟨.memo, e, Or.inr rfl, fun _ => rfl⟩
-    · exact ⟨.memo, e, Or.inl rfl, fun _ => rfl⟩
-  obtain ⟨sp, ex, hvv, hex⟩ := numInv_chain e limits b v hinv0 hv
-  have hspn : sp ≠ .nil := by
-    intro h; subst h
-    rcases hvv with h | h <;> subst h <;> simp [Val3.isZero, Val3.spec] at hnz
-  have hexe : ex = e := hex hspn
-  subst hexe
-  have hexp : v.exponent = some ex := by rcases hvv with h | h <;> subst h <;> rfl
-  have hnum : v.assertsNumber = true := by rcases hvv with h | h <;> subst h <;> rfl
-  have hst : v.start = 0 := by rcases hvv with h | h <;> subst h <;> rfl
-  have hlo := winOf_withSig_lo limits
-  have hnd : numberDigits m.src (Spec.winOf ((limits.map ViewOp.withSig).map toSpecOp)) 20000
-      = (Spec.windowList m.src.len m.src.digit (Spec.winOf ((limits.map ViewOp.withSig).map toSpecOp)) 20000).map (·.2) := by
-    unfold numberDigits
-    congr 2
-    generalize Spec.winOf ((limits.map ViewOp.withSig).map toSpecOp) = w at hlo
-    obtain ⟨lo, hi⟩ := w
-    simp only at hlo; subst hlo; rfl
-  have hneed := need_eq verb prec ex
-  have hle := needOf_le verb prec ex hprec
-  -- the traversal
-  have htrav : ∃ m' xs, (if needOf verb prec ex = 0 then Except.ok (m, [])
-        else specScan c m v.spec 0 (needOf verb prec ex)) = Except.ok (m', xs) ∧ m'.src = m.src ∧
-      xs.map (·.2) = (numberDigits m.src (Spec.winOf ((limits.map ViewOp.withSig).map toSpecOp)) 20000).take
-        (needOf verb prec ex) := by
-    by_cases h0 : needOf verb prec ex = 0
-    · exact ⟨m, [], by rw [if_pos h0], rfl, by rw [h0]; rfl⟩
-    · obtain ⟨m', hf, hm'⟩ := forward_chain3 c m b v _ (needOf verb prec ex) hbase hv (fits_mono hfit hle)
-      refine ⟨m', Spec.windowList m.src.len m.src.digit (Spec.winOf ((limits.map ViewOp.withSig).map toSpecOp)) (needOf verb prec ex), ?_, hm', ?_⟩
-      · rw [if_neg h0, ← hst]; exact hf
-      · rw [hnd, ← List.map_take, windowList_take _ _ _ _ _ hle]
-  obtain ⟨m', xs, hsc, hm', hxs⟩ := htrav
-  have hds : ∀ d ∈ xs.map (·.2), d ≤ 9 := by
-    intro d hd'
-    rw [hxs, hnd] at hd'
-    obtain ⟨x, hx, rfl⟩ := List.mem_map.1 (List.mem_of_mem_take hd')
-    rw [windowList_digit _ _ _ _ x hx]; exact hd _
-  refine ⟨m', _, ?_, hm', (render_take verb prec width minus ex _ _ (Nat.le_refl _))⟩
-  unfold format3
-  rw [hexp]
-  simp only [hnum, Bool.not_true, Bool.false_eq_true, if_false]
-  rw [hneed, hsc]
-  simp only
-  rw [format_spec .v3 ex _ hds, hxs]
 
 /-- C09 + C15 end to end: FindFirstN on any view returns the first n occurrences inside the
 window restricted to its first `bound` digits (as absolute positions; `bound` is arbitrary, so this
